@@ -2,7 +2,7 @@ import GV.Lib.Line
 import GV.Model.BodyHash
 /-
   C34 driver (feed_impl): input line = `op \t impl-output`
-    op   : mut <fixture> <skip 0|1> <splices>
+    op   : mut <fixture> <skip 0|1>[+<mask of the other VerifyConfig toggles>] <splices>
     impl : <verdict> ;; <era> lay=<segwit|dijkstra|byron|ebb> skip=<y|n> real=<y|n> split=<y|n> hdr=<y|n>
            chg=<y|n> unc=… n=<top-level count> … digests computed by the harness itself (not by gouroboros)
 
@@ -58,7 +58,11 @@ def specOf (f : List String) : String :=
 def modelVerdict (verdict : String) (f : List String) : Option String := do
   let era ← f.head?
   let lay ← kv f "lay"
-  let skip := kv f "skip" = some "y"
+  -- the config as the harness built it; whether the body check is skipped is decided by the
+  -- field that gates it IN THE SOURCE (regenerated), not by assuming it is the right one
+  let mask := ((kv f "flags").bind parseNat?).getD 0
+  let gateEra := if lay = "ebb" then "byronebb" else era
+  let skip := skipped gateEra (cfgOf (kv f "skip" = some "y") mask)
   let cls := implClass verdict
   if cls = "err:panic" then return cls
   if kv f "split" ≠ some "y" then return "err:decode"
